@@ -23,6 +23,8 @@ def plan(tier, seed):
                             dict(n=3, m=3, labels='ints', schemes='ext1', configs='parcons_solver', per=60),
                             dict(n=3, m=2, labels=alt, schemes='two', configs='solver'),
                             dict(space='ext43', labels='ints', schemes='ext', configs='parcons_solver', per=300),
+                            dict(n=3, m=2, labels='ints', schemes='one', configs='parcons_solver', premutate=True, reuse=False,
+                                 flags='one'),
                             dict(space='family7', labels='ints', schemes='ext', configs='parcons_b3', flags='one'),
                             dict(space='family7', labels='ints_rev', schemes='ext1', configs='parcons_b3', flags='one')],
             'stub': [dict(n=3, m=2, labels='ints', schemes='three', configs='solver'),
